@@ -24,7 +24,7 @@ CHECKS = {
  "C09": ("seeded search over Plutus wallet sessions (scripts and datums by value / inline / by reference, extra and duplicated datums, cost models V1-V3, metadata; coin selection moves spend indices); body[7] and body[11] of every built transaction are recomputed from the byte spans of the emitted auxiliary data, redeemers and datums plus the harness's own language-views encoding; the stand-alone hashing helpers are checked on the same artefacts",
          "script data hash judged only when calc_script_data_hash was the last script-affecting operation; harness reading of the script-integrity definition; sampling"),
  "C10": ("seeded search over Plutus wallet sessions with seeded insertion permutations; every redeemer carries a unique payload, is resolved against the emitted body under the ledger's pointer rules and compared with the item the history attached it to; pointers pairwise distinct; pointed certificates / accounts / voters script-locked; attached redeemers present; histories with mistaken witness attempts, cancelling mints and zero withdrawals",
-         "reward accounts / voters flagged only if wrong under the ledger's derived order and under byte order; sampling"),
+         "reward accounts / voters ranked in the ledger's derived order (script credentials before key credentials); sampling"),
  "C18": ("seeded search over wallet sessions with overlapping signers across six sources and scripts by value or reference; required scripts, datums and redeemers derived from the emitted body and the world are looked up in the witness set / reference inputs; full_size() is compared with the byte length after signing with exactly the distinct required keys (0 <= diff < 101); truthful empty signer declarations for scripts satisfiable by time alone",
          "truthful declarations by the history (native signers, reference-script sizes); extraneous scripts not judged; sampling"),
  "C19": ("seeded search over sessions with the three collateral-setting paths, return outputs with fewer/equal/more/foreign assets, percentages 0-1000, the percentage helper running a full random selection, and failing helpers after which the session continues; fields 13/16/17 of the emitted body are checked as a whole-value equation against ground-truth collateral UTxOs, return min-ADA, percentage, and residue after failure",
